@@ -98,7 +98,7 @@ func RunRealChecker(l *Loaded, roots []string, sequential, sanity bool) (*Outcom
 		}
 		for _, d := range act.Diagnostics {
 			pos := l.Fset.Position(d.Pos)
-			out.Diags[path] = append(out.Diags[path], Diag{act.Analyzer.Name, strings.TrimPrefix(pos.Filename, simRoot), pos.Line, pos.Column, d.Message, DiagRest(l.Fset, d)})
+			out.Diags[path] = append(out.Diags[path], Diag{act.Analyzer.Name, strings.TrimPrefix(pos.Filename, simRoot), pos.Line, pos.Column, RelMsg(d.Message), DiagRest(l.Fset, d)})
 		}
 	}
 	out.Normalise()
